@@ -153,11 +153,34 @@ def _std_init(f, h, depth, b=None):
         alts = b.var_alts(h[1])
 
         def payload(a):
-            return a[3][0] if (isinstance(a, tuple) and a and a[0] == "agg" and a[2].endswith("Result::Ok") and a[3]) else a
-        good = [a for a in alts if _std_init(f, peel(payload(a)), depth + 1, b)]
-        carried = [a for a in alts if a not in good and (peel(payload(a)) == h or is_call(peel(a, transparent=[]), "FromResidual::from_residual")
-                                                         or (isinstance(peel(payload(a)), tuple) and peel(payload(a))[0] == "var" and _std_init(f, peel(payload(a)), depth + 1, b)))]
-        return bool(good) and len(good) + len(carried) == len(alts)
+            # what a `try_fold` step hands on: `Ok(h)`, seen by the loop as the Continue payload of `Try::branch(<closure result>)`
+            for _ in range(4):
+                if isinstance(a, tuple) and len(a) == 3 and a[0] == "field" and str(a[2]) == "0" and isinstance(a[1], tuple) and a[1][0] == "downcast" and a[1][2] in ("Continue", "Ok"):
+                    a = peel(a[1][1], transparent=[])
+                    if is_call(a, "Try::branch"):
+                        a = peel(a[2][0], transparent=[])
+                    continue
+                if isinstance(a, tuple) and a and a[0] == "agg" and (a[2].endswith("Result::Ok") or a[2].endswith("ControlFlow::Continue")) and a[3]:
+                    a = a[3][0]
+                    continue
+                break
+            return a
+        # every value that can flow into the accumulator (through moves, Ok(..)/`?` wrappers and the loop-carried update) is the standard start state
+        seen, todo, sources = set(), [h], []
+        while todo and len(seen) < 24:
+            v = todo.pop()
+            if v in seen:
+                continue
+            seen.add(v)
+            for a in b.var_alts(v[1]):
+                if is_call(peel(a, transparent=[]), "FromResidual::from_residual"):
+                    continue       # the error path: no hasher comes out of it
+                pa = peel(payload(a))
+                if isinstance(pa, tuple) and len(pa) == 2 and pa[0] == "var":
+                    todo.append(pa)
+                else:
+                    sources.append(pa)
+        return bool(sources) and not todo and all(_std_init(f, x, depth + 1, None) for x in sources)
     if not (isinstance(h, tuple) and h and h[0] == "call"):
         return False
     name = strip_generics(h[1])
